@@ -8,10 +8,18 @@ explained by a cell of coq/Gen/GenState.v (`covered`), otherwise the translator'
 was actually observed.
 
 The fingerprints are address-free and structural, so two snapshots are equal iff the observable state is.
+ONE-SHOT objects are fingerprinted by how far they have been consumed, without advancing them: a generator by its state
+(created / suspended / finished) and the fingerprint of its frame's locals (the underlying iterator `.0` included); any
+other iterator by operator.length_hint and by what __reduce__ shows of it (the remaining items of list / tuple / dict /
+range iterators, the underlying iterators and counters of map / filter / zip / enumerate / reversed / itertools
+objects); an open file (a descriptor above 2) by closed flag and position.
 """
+import io as _io
 import os
 import sys
 import types
+import operator
+import warnings
 
 PKG = "torrentfile"
 _ATOMS = (str, bytes, int, float, bool, type(None), complex)
@@ -36,6 +44,12 @@ def fp(obj, depth=0, seen=None):
         return f"bytearray[{len(obj)}]:{hash(bytes(obj))}"
     if isinstance(obj, (types.FunctionType, types.BuiltinFunctionType, types.MethodType, type, types.ModuleType)):
         return f"<{getattr(obj, '__module__', '')}.{getattr(obj, '__qualname__', getattr(obj, '__name__', '?'))}>"
+    if isinstance(obj, (types.GeneratorType, types.CoroutineType, types.AsyncGeneratorType)):
+        return _fp_generator(obj, depth, seen)
+    if isinstance(obj, _io.IOBase):
+        return _fp_file(obj)
+    if hasattr(type(obj), "__next__"):
+        return _fp_iterator(obj, depth, seen)
     d = getattr(obj, "__dict__", None)
     name = f"{type(obj).__module__}.{type(obj).__qualname__}"
     if name.startswith(("logging.", "_io.", "io.", "threading.", "argparse.")):
@@ -46,6 +60,65 @@ def fp(obj, depth=0, seen=None):
     if slots:
         return name + "(" + ",".join(f"{s}={fp(getattr(obj, s, None), depth + 1, seen)}" for s in slots) + ")"
     return f"<{name}>"
+
+
+def _fp_generator(g, depth, seen):
+    """state of a generator without running it: gi_frame is None once it has finished; a suspended one shows its locals"""
+    frame = getattr(g, "gi_frame", None) or getattr(g, "cr_frame", None) or getattr(g, "ag_frame", None)
+    name = getattr(g, "__qualname__", "?")
+    if frame is None:
+        return f"<generator {name}: finished>"
+    started = frame.f_lasti >= 0 and getattr(g, "gi_suspended", True) or frame.f_lasti > 0
+    try:
+        loc = dict(frame.f_locals)
+    except Exception:  # noqa
+        loc = {}
+    return f"<generator {name}: {'suspended' if started else 'created'} line {frame.f_lineno} locals " + \
+        fp({str(k): v for k, v in loc.items()}, depth + 1, seen) + ">"
+
+
+def _fp_iterator(it, depth, seen):
+    """an iterator other than a generator: what is left of it, read without calling next()"""
+    name = f"{type(it).__module__}.{type(it).__qualname__}"
+    parts = []
+    try:
+        parts.append(f"hint={operator.length_hint(it, -1)}")
+    except Exception:  # noqa
+        pass
+    try:
+        with warnings.catch_warnings():
+            warnings.simplefilter("ignore")
+            red = it.__reduce__()
+        if isinstance(red, tuple) and len(red) >= 2:
+            parts.append("args=" + fp(red[1], depth + 1, seen))
+            if len(red) > 2 and red[2] is not None:
+                parts.append("state=" + fp(red[2], depth + 1, seen))
+    except Exception:  # noqa
+        pass
+    return f"<iterator {name} " + " ".join(parts) + ">"
+
+
+def _fp_file(f):
+    name = f"{type(f).__module__}.{type(f).__qualname__}"
+    try:
+        if f.closed:
+            return f"<{name} closed>"
+        fd = f.fileno()
+    except Exception:  # noqa  (StringIO / BytesIO have no descriptor: position and content decide)
+        try:
+            return f"<{name} pos={f.tell()} size={len(f.getvalue())}>"
+        except Exception:  # noqa
+            return f"<{name}>"
+    if fd <= 2:
+        return f"<{name}>"            # the standard streams: declared benign by the C09 reading
+    try:
+        pos = f.tell() if f.seekable() else "?"
+    except Exception:  # noqa  (a text file in the middle of iteration refuses tell())
+        try:
+            pos = "raw:" + str(os.lseek(fd, 0, os.SEEK_CUR))
+        except OSError:
+            pos = "?"
+    return f"<{name} open pos={pos}>"
 
 
 def _function_state(prefix, fn, out):
